@@ -28,33 +28,10 @@ var libPkgs = map[string]string{
 }
 
 func exprText(fset *token.FileSet, e ast.Node) string {
-	var sb strings.Builder
-	ast.Inspect(e, func(n ast.Node) bool {
-		switch x := n.(type) {
-		case *ast.Ident:
-			sb.WriteString(x.Name)
-		case *ast.SelectorExpr:
-			sb.WriteString(exprText(fset, x.X) + "." + x.Sel.Name)
-			return false
-		case *ast.IndexExpr:
-			sb.WriteString(exprText(fset, x.X) + "[…]")
-			return false
-		case *ast.SliceExpr:
-			sb.WriteString(exprText(fset, x.X) + "[:]")
-			return false
-		case *ast.CallExpr:
-			sb.WriteString(exprText(fset, x.Fun) + "(…)")
-			return false
-		case *ast.StarExpr:
-			sb.WriteString("*" + exprText(fset, x.X))
-			return false
-		case *ast.UnaryExpr:
-			sb.WriteString(x.Op.String() + exprText(fset, x.X))
-			return false
-		}
-		return true
-	})
-	return sb.String()
+	if x, ok := e.(ast.Expr); ok {
+		return types.ExprString(x)
+	}
+	return fmt.Sprintf("%T", e)
 }
 
 func funcName(fd *ast.FuncDecl) string {
